@@ -553,6 +553,108 @@ def r8(ctx, rule="C17.R8"):
     ctx.floor(rule, n, rule + ".containers")
 
 
+def r9(ctx):
+    import math
+    rule = "C17.R9"
+    ctx.rule(rule, "the varint reader takes every length the writer emits: write_varint emits 7 payload bits per octet of a 64-bit value "
+                   "(at most ceil(64 / 7) = 10 octets); the loop of read_varint, where it is bounded by a constant - a shift compared "
+                   "with K and advanced by S, a counter compared with N, `for _ in 0..N` - admits at least that many octets (9 octets "
+                   "cut off bit 63: u64 values from 2^63 and zig-zag encoded i64 extremes no longer decode)")
+    P = ctx.program()
+    rs = [b for b in P.lib_bodies("asn1rs") if b.name == "read_varint" and b.file.endswith("protobuf/mod.rs") and b.def_kind == "AssocFn" and b.blocks]
+    ws = [b for b in P.lib_bodies("asn1rs") if b.name == "write_varint" and b.file.endswith("protobuf/mod.rs") and b.def_kind == "AssocFn" and b.blocks]
+    rs = [b for b in rs if len(b.blocks) > 2]
+    ws = [b for b in ws if len(b.blocks) > 2]
+    if len(rs) != 1 or len(ws) != 1:
+        ctx.fail(rule, "anchor-lost:varint", "read_varint / write_varint matched %d / %d bodies" % (len(rs), len(ws)))
+        return
+    r, w = rs[0], ws[0]
+    Ow = X.Origins(w, P)
+    # the writer: payload bits per octet = the shift applied to the value in its loop; width of the value = its parameter type
+    shifts = set()
+    for bb, j, st in w.all_statements():
+        rv = st.get("rv") or {}
+        if st["k"] == "assign" and rv.get("k") == "bin" and X.norm_op(rv["op"]) == "Shr":
+            o = rv.get("r") or rv.get("b")
+            if isinstance(o, dict) and o.get("k") == "const" and "val" in o:
+                shifts.add(int(o["val"]))
+    vty = w.locals[2]["ty"] if w.arg_count >= 2 else ""
+    bits = {"u64": 64, "u32": 32, "u128": 128}.get(vty)
+    if len(shifts) != 1 or not bits:
+        ctx.fail(rule, "writer#anchor-lost", "write_varint: shift amounts %s, value type %s" % (sorted(shifts), vty), "%s:%d" % (w.file, w.line))
+        return
+    per = shifts.pop()
+    need = math.ceil(bits / per)
+    Or = X.Origins(r, P)
+    loops = r.sccs()
+    bounds = []
+    for c in F.comparisons(r, Or):
+        if c.switch_bb is None or c.kind != "b" or c.rhs != "" or c.lex is None or not any(c.switch_bb in l for l in loops):
+            continue
+        step = None
+        for e in X.walk(c.lex):
+            if e[0] == "bin" and X.norm_op(e[1]) == "Add":
+                k = F.strip_casts(e[3])
+                if k[0] == "const" and k[1] > 0:
+                    step = k[1]
+        if step is None or "read_u8" in c.lhs or "BitAnd" in c.lhs:
+            continue
+        bounds.append((math.ceil(c.boundary / step), "`%s` advanced by %d" % (c.raw[-40:], step), c.loc))
+    for cs in r.calls():
+        if cs.name == "next" and any(cs.bb in l for l in loops):
+            a = X.render(Or.call_args(cs)[0])
+            m = re.search(r"Range::Range\{start: (\d+), end: (\d+)\}", a)
+            if m:
+                bounds.append((int(m.group(2)) - int(m.group(1)), "`for _ in %s..%s`" % (m.group(1), m.group(2)), cs.loc()))
+    detail = {"writer": w.path, "payload_bits_per_octet": per, "value_bits": bits, "octets_the_writer_can_emit": need,
+              "reader": r.path, "reader_loop_bounds": [(n, t) for n, t, _ in bounds]}
+    if not bounds:
+        ctx.ok(rule, "read_varint#octets", dict(detail, note="no constant bound on the reader's loop"), nontrivial=False)
+    short = [b for b in bounds if b[0] < need]
+    for n, t, loc in short[:1]:
+        ctx.fail(rule, "read_varint#octets", "read_varint stops after %d octets (%s) but write_varint emits up to %d for a %d-bit value: the "
+                                             "most significant bits are cut off or the value is refused" % (n, t, need, bits), loc, detail)
+    if bounds and not short:
+        ctx.ok(rule, "read_varint#octets", detail)
+    ctx.floor(rule, len(bounds), "C17.R9.bounds")
+
+
+def r10(ctx, rule="C17.R10"):
+    ctx.rule(rule, "a nested message is always a field: in ProtobufWriter::write_set_or_sequence and write_choice the tag and the length "
+                   "of the enclosed content are written on every successful path - the write_tag call does not depend on a test of the "
+                   "content's length (`if !content.is_empty()`): an element of a SEQUENCE OF whose components are all absent, or an "
+                   "empty SEQUENCE selected in a CHOICE, would vanish from the wire and the reader returns fewer elements / fails")
+    P = ctx.program()
+    n = 0
+    bodies = [b for b in P.lib_bodies("asn1rs") if b.file.endswith("rw/proto_write.rs") and "ProtobufWriter" in b.path and "::promoted[" not in b.path]
+    if not any(b.name in ("write_set_or_sequence", "write_choice") for b in bodies):
+        ctx.fail(rule, "anchor-lost:write_set_or_sequence", "ProtobufWriter::write_set_or_sequence / write_choice not found")
+        return
+    for body in bodies:
+        O = None
+        for cs in body.calls():
+            if cs.name not in ("write_tag", "write_tagged_bytes"):
+                continue
+            O = O or X.Origins(body, P)
+            # only the tag of enclosed (length-delimited) content
+            if cs.name == "write_tag" and not any("LengthDelimited" in X.render(a) for a in O.call_args(cs)):
+                continue
+            n += 1
+            fn = (body.root or body.path).split("::")[-1]
+            bad = None
+            for s_bb, ex, val in R.path_conditions(body, O, cs.bb):
+                for e in X.walk(ex):
+                    if e[0] == "call" and X.last_seg(e[1] or "") in ("is_empty", "len"):
+                        bad = X.render(X.strip(ex))[:80]
+            d = {"function": body.path, "write_tag_at": cs.loc()}
+            if bad:
+                ctx.fail(rule, fn + "#tag-depends-on-length", "the tag of the enclosed content is written only under `%s`: content of "
+                                                              "length 0 leaves no field on the wire" % bad, cs.loc(), d)
+            else:
+                ctx.ok(rule, fn + "#tag", d)
+    ctx.floor(rule, n, rule + ".tags")
+
+
 def run(ctx):
     r1(ctx)
     r2(ctx)
@@ -562,3 +664,5 @@ def run(ctx):
     r6(ctx)
     r7(ctx)
     r8(ctx)
+    r9(ctx)
+    r10(ctx)
